@@ -38,6 +38,9 @@ func main() {
 		os.Exit(2)
 	}
 	id, tier := os.Args[1], os.Args[2]
+	if rp := os.Getenv("VERIF_REPLAY"); rp != "" {
+		os.Exit(replayFile(rp))
+	}
 	def, ok := registry[id]
 	if !ok {
 		fmt.Fprintf(os.Stderr, "vcheck: unknown check %q\n", id)
